@@ -3,6 +3,7 @@ import Sessions.FactsIrCache
 import Sessions.FactsIrHandlers
 import Sessions.FactsIrLogin
 import Sessions.FactsIrStart
+import Sessions.FactsIrStartRun
 /-! All equivalence theorems between the translated Go functions (`Facts.ir_*`, regenerated) and the model, with their axioms. -/
 #print axioms FactsIr.regenerateID_eq
 #print axioms FactsIr.destroy_eq_model
